@@ -1,4 +1,4 @@
-(* C09, part 4: the handler operations (Set, Delete, LogIn, LogOut,
+(* C09, part 4: the handler operations (Set, Delete, GetAndDelete, LogIn, LogOut,
    RegenerateID, Destroy), the user-wide operations, clean-ups, scripts. *)
 From Sessions Require Import Model.Base Model.Sess Model.Hist Proofs.SessDefs
   Proofs.WriteThrough Proofs.WriteThrough2 Proofs.WriteThrough3.
@@ -136,19 +136,26 @@ Qed.
 
 (* --------------------------------------------------- handler operations *)
 
-Definition nogetdel (op : sop) : bool := match op with SGetDel _ => false | _ => true end.
-
 Definition changing (op : sop) : bool :=
   match op with SSet _ _ | SDel _ | SLogIn _ _ | SLogOut | SRegen => true | _ => false end.
 
+(* An acknowledged change: a changing call that returned without error, or a
+   GetAndDelete that returned a value (it has no error result). *)
+Definition acked (op : sop) (r : sres) : bool :=
+  match op, r with
+  | SGetDel _, SVal (Some _) => true
+  | _, SOk => changing op
+  | _, _ => false
+  end.
+
 Lemma do_sop_spec s o hc op s' r cks :
-  Inv noex s -> Unsh s o -> nogetdel op = true -> do_sop s o hc op = (s', r, cks) ->
+  Inv noex s -> Unsh s o -> do_sop s o hc op = (s', r, cks) ->
   Inv noex s' /\ conf s' = conf s /\ Unsh s' o /\
-  (Held s o -> changing op = true -> r = SOk -> Held s' o).
+  (Held s o -> acked op r = true -> Held s' o).
 Proof.
-  intros HI HU Hop. destruct HU as (ob & Hg & Hu).
+  intros HI HU. destruct HU as (ob & Hg & Hu).
   assert (HU : Unsh s o) by (exists ob; auto).
-  destruct op as [k v|k|k|k|u ex| | |]; try discriminate Hop; cbn [do_sop].
+  destruct op as [k v|k|k|k|u ex| | |]; cbn [do_sop].
   - (* Set *)
     unfold data_of. rewrite Hg. destruct (r_data (o_rec ob)) as [d|].
     + destruct (modify_save s o ob (fun r0 => set_data r0 (Some (kv_set d k v))) HI Hg Hu)
@@ -168,6 +175,15 @@ Proof.
       split; [apply Held_Unsh; exact HH | intros; exact HH].
   - (* Get *)
     intros [= <- <- <-]. split; [exact HI|]. split; [reflexivity|]. split; [exact HU|]. discriminate.
+  - (* GetAndDelete: a found key is deleted and the object saved directly *)
+    unfold data_of. rewrite Hg. destruct (r_data (o_rec ob)) as [d|].
+    + destruct (kv_get d k) as [v|].
+      * destruct (modify_save s o ob (fun r0 => set_data r0 (Some (kv_del d k))) HI Hg Hu)
+          as (s1 & Hs & HI1 & HH & (Hc & _) & _).
+        rewrite Hs. intros [= <- <- <-]. split; [exact HI1|]. split; [exact Hc|].
+        split; [apply Held_Unsh; exact HH | intros; exact HH].
+      * intros [= <- <- <-]. split; [exact HI|]. split; [reflexivity|]. split; [exact HU|]. discriminate.
+    + intros [= <- <- <-]. split; [exact HI|]. split; [reflexivity|]. split; [exact HU|]. discriminate.
   - (* LogIn *)
     destruct (login_spec s o u ex HI HU) as (s1 & cks1 & Hs & HI1 & HH & Hc & _).
     rewrite Hs. intros [= <- <- <-]. split; [exact HI1|]. split; [exact Hc|].
@@ -183,7 +199,7 @@ Proof.
   - (* Destroy *)
     destruct (destroy s o hc) as [[s1 r1] c1] eqn:Hd.
     destruct (destroy_spec s o hc s1 r1 c1 HI Hd) as (HI1 & (Hc & _) & HU1 & _).
-    intros [= <- <- <-]. split; [exact HI1|]. split; [exact Hc|]. split; [apply HU1; exact HU | discriminate].
+    intros [= <- <- <-]. split; [exact HI1|]. split; [exact Hc|]. split; [apply HU1; exact HU | intros _ H; destruct r1; discriminate H].
 Qed.
 
 (* -------------------------------------------------------------- clean-ups *)
@@ -217,18 +233,17 @@ Qed.
 (* ---------------------------------------------------------------- scripts *)
 
 Lemma run_script_spec ops : forall s o hc s' rs cks,
-  Inv noex s -> Unsh s o -> forallb nogetdel ops = true -> run_script s o hc ops = (s', rs, cks) ->
+  Inv noex s -> Unsh s o -> run_script s o hc ops = (s', rs, cks) ->
   Inv noex s' /\ conf s' = conf s.
 Proof.
-  induction ops as [|op t IH]; intros s o hc s' rs cks HI HU Hops; cbn [run_script].
+  induction ops as [|op t IH]; intros s o hc s' rs cks HI HU; cbn [run_script].
   - intros [= <- <- <-]. auto.
-  - cbn [forallb] in Hops. apply andb_prop in Hops. destruct Hops as [Hop Hops].
-    destruct (do_sop s o hc op) as [[s1 r1] c1] eqn:Hd.
-    destruct (do_sop_spec s o hc op s1 r1 c1 HI HU Hop Hd) as (HI1 & Hc1 & HU1 & _).
+  - destruct (do_sop s o hc op) as [[s1 r1] c1] eqn:Hd.
+    destruct (do_sop_spec s o hc op s1 r1 c1 HI HU Hd) as (HI1 & Hc1 & HU1 & _).
     destruct (fire_due_spec s1 HI1) as (HI2 & (Hc2 & _) & HU2).
     match goal with |- (if ?b then _ else _) = _ -> _ => destruct b end.
     + intros [= <- <- <-]. split; [exact HI2 | congruence].
     + destruct (run_script (fire_due s1) o hc t) as [[s3 rs3] c3] eqn:Hr.
       intros [= <- <- <-].
-      destruct (IH _ o hc s3 rs3 c3 HI2 (HU2 o HU1) Hops Hr) as (A & B). split; [exact A | congruence].
+      destruct (IH _ o hc s3 rs3 c3 HI2 (HU2 o HU1) Hr) as (A & B). split; [exact A | congruence].
 Qed.
